@@ -28,7 +28,7 @@ package bufprotopluginos
 // files of this run, in this location), and a closer is registered exactly when a new bucket was created.
 //@ func (w *responseWriter) writeDirectory(ctx, response, outDirPath, createOutDirIfNotExists) (err)
 //@   property C17
-//@   modifies heap responseWriter.readWriteBuckets, heap responseWriter.closers, ghost.fail, ghost.wfail, ghost.sinkPaths, ghost.sinkBuckets, ghost.lastPutOptions, ghost.buf, ghost.v_scanPos, ghost.v_match, ghost.v_ipRead, ghost.v_wrCalls
+//@   modifies heap responseWriter.readWriteBuckets, heap responseWriter.closers, ghost.fail, ghost.wfail, ghost.sinkPaths, ghost.sinkBuckets, ghost.lastPutOptions, ghost.buf, ghost.v_scanPos, ghost.v_scanEnded, ghost.v_match, ghost.v_ipRead, ghost.v_wrCalls
 //@   requires w.responseWriter != nil && v_cacheWf(w.readWriteBuckets)
 //@   use v_opt-carries-bucket, v_cacheWf-get, v_cacheWf-put
 //@   ensures written-once: ghost.v_wrCalls == old(ghost.v_wrCalls) + 1
@@ -56,7 +56,7 @@ package bufprotopluginos
 //   they don't already exist"): once the missing directory has been created the response is taken like any other.
 //@ func (w *responseWriter) writeZip(ctx, response, outFilePath, includeManifest, createOutDirIfNotExists) (retErr)
 //@   property C17
-//@   modifies heap responseWriter.readWriteBuckets, heap responseWriter.closers, ghost.fail, ghost.wfail, ghost.sinkPaths, ghost.sinkBuckets, ghost.lastPutOptions, ghost.buf, ghost.v_scanPos, ghost.v_match, ghost.v_ipRead, ghost.v_wrCalls, ghost.j_osStat, ghost.j_osWrite, ghost.v_statErr
+//@   modifies heap responseWriter.readWriteBuckets, heap responseWriter.closers, ghost.fail, ghost.wfail, ghost.sinkPaths, ghost.sinkBuckets, ghost.lastPutOptions, ghost.buf, ghost.v_scanPos, ghost.v_scanEnded, ghost.v_match, ghost.v_ipRead, ghost.v_wrCalls, ghost.j_osStat, ghost.j_osWrite, ghost.v_statErr
 //@   requires w.responseWriter != nil && v_cacheWf(w.readWriteBuckets)
 //@   use v_opt-carries-bucket, v_cacheWf-get, v_cacheWf-put
 //@   ghost after "fileInfo, err := os.Stat(outDirPath)" v_statErr := err
@@ -88,7 +88,7 @@ package bufprotopluginos
 // nothing on disk before Close. In every case: one bucket per location, shared, response handed over at most once.
 //@ func (w *responseWriter) addResponse(ctx, response, pluginOut, createOutDirIfNotExists) (err)
 //@   property C17
-//@   modifies heap responseWriter.readWriteBuckets, heap responseWriter.closers, ghost.fail, ghost.wfail, ghost.sinkPaths, ghost.sinkBuckets, ghost.lastPutOptions, ghost.buf, ghost.v_scanPos, ghost.v_match, ghost.v_ipRead, ghost.v_wrCalls, ghost.j_osStat, ghost.j_osWrite, ghost.v_statErr
+//@   modifies heap responseWriter.readWriteBuckets, heap responseWriter.closers, ghost.fail, ghost.wfail, ghost.sinkPaths, ghost.sinkBuckets, ghost.lastPutOptions, ghost.buf, ghost.v_scanPos, ghost.v_scanEnded, ghost.v_match, ghost.v_ipRead, ghost.v_wrCalls, ghost.j_osStat, ghost.j_osWrite, ghost.v_statErr
 //@   requires w.responseWriter != nil && v_cacheWf(w.readWriteBuckets)
 //@   ensures written-once: err == nil ==> ghost.v_wrCalls == old(ghost.v_wrCalls) + 1
 //@   ensures written-at-most-once: ghost.v_wrCalls == old(ghost.v_wrCalls) || ghost.v_wrCalls == old(ghost.v_wrCalls) + 1
@@ -112,7 +112,7 @@ package bufprotopluginos
 // bucket, so a later plugin's insertion points see an earlier plugin's files whichever way the directory was spelled).
 //@ func (w *responseWriter) AddResponse(ctx, response, pluginOut) (err)
 //@   property C17
-//@   modifies heap responseWriter.readWriteBuckets, heap responseWriter.closers, ghost.fail, ghost.wfail, ghost.sinkPaths, ghost.sinkBuckets, ghost.lastPutOptions, ghost.buf, ghost.v_scanPos, ghost.v_match, ghost.v_ipRead, ghost.v_wrCalls, ghost.j_osStat, ghost.j_osWrite, ghost.v_statErr
+//@   modifies heap responseWriter.readWriteBuckets, heap responseWriter.closers, ghost.fail, ghost.wfail, ghost.sinkPaths, ghost.sinkBuckets, ghost.lastPutOptions, ghost.buf, ghost.v_scanPos, ghost.v_scanEnded, ghost.v_match, ghost.v_ipRead, ghost.v_wrCalls, ghost.j_osStat, ghost.j_osWrite, ghost.v_statErr
 //@   requires w.responseWriter != nil && v_cacheWf(w.readWriteBuckets)
 //@   ensures abs-failure: second(filepath.Abs(pluginOut)) != nil ==> err != nil && w.readWriteBuckets == old(w.readWriteBuckets) && w.closers == old(w.closers) && ghost.v_wrCalls == old(ghost.v_wrCalls) && ghost.sinkPaths == old(ghost.sinkPaths)
 //@   ensures written-once: err == nil ==> ghost.v_wrCalls == old(ghost.v_wrCalls) + 1
